@@ -41,8 +41,8 @@ CLAIMS.update({
  "C11": dict(cat="other", tech="structural premises P1-P5 on interpreted leaves + fixed arithmetic lemma",
    text="P1 loop bound term = min + draw<(max-min) (or min), P2 one emit_and_process per counted iteration, P3 every feasible emission leaf (safe/unsafe) decodes to exactly one opcode, P4 net growth <= 1, P5 collapse tail <= items+marks+1; the totals follow by the lemma in DESIGN.md.",
    note="the closing arithmetic lemma is pen-and-paper; choose_index range from C18", ref="4/C11"),
- "C12": dict(cat="other", tech="table completeness + breadth-first witness search over the extracted transition relation (retried deeper/wider for pairs missed at the first bound) + written-opcode rule",
-   text="Every standard opcode with proto<=P is listed in the protocol-P row; for every (P,k) a choice sequence from the empty stack reaches a state where can_emit(k) holds (witness in evidence); framed and unframed paths exist for P>=4. The existence of a witness seed in a fixed range is not decided (probabilistic).",
+ "C12": dict(cat="other", tech="table completeness + breadth-first witness search over the extracted transition relation (retried deeper/wider for pairs missed at the first bound) + candidate-list rule (get_valid_opcodes interpreted per opcode, real guard for opcodes it skips or drops) + written-opcode rule",
+   text="Every standard opcode with proto<=P is listed in the protocol-P row; for every (P,k) a choice sequence from the empty stack reaches a state where can_emit(k) holds (witness in evidence); get_valid_opcodes consults the guard of every row opcode and offers it when the guard holds (an opcode it skips or drops must still be offered in some abstract state where its real guard holds); framed and unframed paths exist for P>=4. The existence of a witness seed in a fixed range is not decided (probabilistic).",
    note="necessary condition only: precondition satisfiable on a reachable state", ref="4/C12"),
 })
 
